@@ -535,19 +535,52 @@ theorem duplicate_inflight_id_refused_atomically (c : Conn α) (calls : List Nat
     · rw [hl]; rfl
 
 /-- … and while the session is open, "still registered" is the same as "in flight": a request id is in
-`requestStreams` exactly when it is outstanding on a registered stream. -/
-theorem registered_iff_inflight (cfg : Cfg) (ls : List (Label α)) (hopen : (run (init cfg) ls).isDone = false) (r : Nat) :
+`requestStreams` exactly when it is outstanding on a registered stream — except in the window of a response that
+has been routed (its entry removed) but not yet delivered (`RespPending`: the request is still outstanding on its
+stream until the delivery section runs). -/
+theorem registered_iff_inflight (cfg : Cfg) (ls : List (Label α)) (hopen : (run (init cfg) ls).isDone = false) (r : Nat)
+    (hnp : ∀ sid, ¬ RespPending (run (init cfg) ls) r sid) :
     (∃ s ∈ (run (init cfg) ls).streams, r ∈ s.requests) ↔ ((run (init cfg : Conn α) ls).reqStreams r).isSome := by
   have h := invReg_run cfg ls
   constructor
   · rintro ⟨s, hs, hr⟩
-    rw [h.live hopen s hs r hr]; rfl
+    rcases h.live hopen s hs r hr with hl | hp
+    · rw [hl]; rfl
+    · exact absurd hp (hnp s.id)
   · intro hsome
     cases hc : (run (init cfg : Conn α) ls).reqStreams r with
     | none => rw [hc] at hsome; cases hsome
     | some sid =>
       obtain ⟨s, hs, _, hm⟩ := h.reg r sid hc
       exact ⟨s, hs, hm⟩
+
+/-- the routing section of a response removes the routing entry of its request at once -/
+theorem response_unregisters_at_routing (c : Conn α) (r : Nat) (p : α) (ctx : Option Nat) (ctxNew : Bool) :
+    (wrouteR c (.resp r p) ctx ctxNew).1.reqStreams r = none := by
+  unfold wrouteR
+  rw [if_neg (by simp [Msg.isCall])]
+  split
+  · simp [eraseResp]
+  · split <;> simp [eraseResp]
+
+/-- … and from then on traffic written with the context of `r` is rejected by the routing section: nothing is left
+pending, no exchange, no stream and no log changes -/
+theorem after_response_routing_rejects (c : Conn α) (hj : c.cfg.jsonResponse = false) (r : Nat)
+    (hreg : c.reqStreams r = none) (msg : Msg α) (hnr : ∀ r' p, msg ≠ .resp r' p) (ctxNew : Bool) :
+    wrouteR c msg (some r) ctxNew = (c, .rejected) := by
+  unfold wrouteR
+  split
+  · rfl
+  · have hroute : route c msg (some r) = none := by
+      cases msg with
+      | resp r' p => exact absurd rfl (hnr r' p)
+      | notif p => simp [route, related, hj, hreg]
+      | call p => simp [route, related, hj, hreg]
+    rw [hroute]
+    cases msg with
+    | resp r' p => exact absurd rfl (hnr r' p)
+    | notif p => rfl
+    | call p => rfl
 
 /-! ## the regenerated constants the model depends on -/
 
